@@ -1,7 +1,10 @@
 """C18 — decimal amount strings and 18-decimal integers convert without loss.
 
 Proof: Lean theorems about Rangers.Model.Decimal (the model the driver executes).
-Tie: T-corr — harness/cmd/c18 runs the real utility / eth_tx / executor code on
+Tie: T-gen — gen/cmd/c18facts re-extracts constants, the ParseFloat call, the
+float pipeline, wrapper call shapes, the value path ends and the FormatDecimalFor*
+call sites into Generated/C18Facts.lean (pinned by Props/C18Gen.lean); and
+T-corr — harness/cmd/c18 runs the real utility / eth_tx / executor code on
 generated op lines, the compiled Lean model answers the same lines, streams are diffed.
 Searcher: direct round-trip / exactness oracle on the implementation (no model).
 """
@@ -11,7 +14,7 @@ import re
 
 import vlib
 
-PROPS = ['Rangers.Props.C18']
+PROPS = ['Rangers.Props.C18', 'Rangers.Props.C18Gen']
 DRIVERS = ['C18']
 
 META = dict(
@@ -41,6 +44,17 @@ META = dict(
 
 def _n(ctx, quick, thorough):
     return thorough if ctx.thorough() else quick
+
+
+def gen(ctx):
+    """T-gen: re-extract constants / call shapes / call sites from ctx.repo into Generated/C18Facts.lean."""
+    rc, so, se = vlib.go_run_gen(ctx, 'c18facts', [])
+    if rc != 0 or 'namespace Rangers.Generated.C18' not in so:
+        return dict(ok=False, error='c18facts failed: ' + (se or so)[-800:])
+    path = os.path.join(vlib.LEAN, 'Rangers', 'Generated', 'C18Facts.lean')
+    changed = vlib.write_if_changed(path, so)
+    return dict(ok=True, changed=changed, file='lean/Rangers/Generated/C18Facts.lean',
+                facts=len([l for l in so.split('\n') if l.startswith('def ')]))
 
 
 def correspond(ctx):
